@@ -173,6 +173,18 @@ def run_case(case):
                   "run() raised %s: %s" % (obs["escaped"], obs.get("escaped_msg"))))
         return {"v": v, "dg": obs["escaped"], "out": "escaped"}
     feats = obs["model"][0]
+    childless = "('S', (), ())" in repr(prog) or "('R', (), None, ())" in repr(prog) or ", ((), ()))" in repr(prog) \
+        or "((), ()),)" in repr(prog)
+    if not dupnames and texts is None and not childless:     # childless elements: outside the roll-up statement (C03)
+        # execution-side truth: the census below walks the model AFTER the run; a defect in a lazy builder would
+        # falsify the model and every summary of it consistently, so the model itself is first held against the
+        # reference interpreter's prediction for this run (statuses of every element and step)
+        from vlib import refrun
+        ref = refrun.predict(prog, cfgd, faults=faults, cleanups=cleanups, hooks=hooks)
+        for d_, msg_ in refrun.compare(prog, ref, obs, what=("status", "steps")):
+            d_["subcheck"] = "model-vs-reference"
+            v.append((d_, "model after the run differs from the reference run: " + msg_))
+            break
     cen, failing, errored = census(feats)
     fault = ""
     if "ud_bad" in holder:
